@@ -29,6 +29,7 @@ ASSUMPTIONS = [
     "alphabet values are pilots every addressed EVSE accepts (acceptance itself is C13); infeasible schedules legitimately only warn",
     "the invocation periods are taken from the run itself (the invocation rule is C05)",
     "small scope: <=3 stations, <=5 invocations",
+    "rows of one mapping may differ in value type (Python ints / integer array listed first, fractional floats after)",
 ]
 CHUNK = 40
 
